@@ -1,10 +1,73 @@
 import Vegeta.Go.Proto
-/-! Driver operations of property C02 (ops are named `c02.<name>`). -/
+import Vegeta.Model.AttackAccept
+import Vegeta.Model.Pump
+/-! Driver operations of property C02/C03 (ops are named `c02.<name>`). -/
 namespace Vegeta.Driver.C02
-open Vegeta.Go Vegeta.Go.Proto
+open Vegeta.Go Vegeta.Go.Proto Vegeta.Model.Attack
 
-def handle (_op : String) (args : List String) : Option String :=
-  match _op with
+def pObs : P Obs := do
+  let pb ← bool
+  let count ← nat
+  let tr ← listOf nat
+  let closed ← bool
+  let alive ← nat
+  let del ← listOf nat
+  pure { paceBlocked := pb, count := count, inTransport := tr, delivered := del, closed := closed, alive := alive }
+
+def pCmd : P Cmd := do
+  let t ← tok
+  match t.toList with
+  | ['P'] => pure .P
+  | ['X'] => pure .Pstop
+  | ['R'] => pure .R
+  | ['S'] => pure .S
+  | ['F'] => pure .F
+  | ['G'] => pure .G
+  | 'T' :: ds => match (String.ofList ds).toNat? with
+    | some i => pure (.T i)
+    | none => failure
+  | _ => failure
+
+def pCmdObs : P CmdObs := do
+  let t ← tok
+  match t.toList with
+  | ['-'] => pure .none
+  | ['n'] => pure .nothing
+  | ['c'] => pure .closed
+  | ['t'] => pure (.stopped true)
+  | ['f'] => pure (.stopped false)
+  | 'g' :: ds => match (String.ofList ds).toNat? with
+    | some i => pure (.got i)
+    | none => failure
+  | _ => failure
+
+def showObs (o : Obs) : String :=
+  s!"(pb={o.paceBlocked} count={o.count} tr={o.inTransport} del={o.delivered} closed={o.closed} alive={o.alive})"
+
+def handle (op : String) (args : List String) : Option String :=
+  match op with
+  | "c02.accept" => do
+    let ((w, m, o0, tr), _) ← (do
+      let w ← nat; let m ← nat; let o0 ← pObs
+      let tr ← listOf (do let c ← pCmd; let co ← pCmdObs; let o ← pObs; pure (c, co, o))
+      pure (w, m, o0, tr)).run args
+    match acceptRun w m o0 tr with
+    | none => pure "ok"
+    | some k => pure s!"reject {k}"
+  | "c02.run" => do
+    -- run an explicit label-free smoke: initial quiescent observations
+    let ((w, m), _) ← (do let w ← nat; let m ← nat; pure (w, m)).run args
+    let qs := quiesce false [init w m 0]
+    pure (String.intercalate " | " (qs.map fun s => showObs (obsOf s false)))
+  | "c02.pump" => do
+    let script ← args.head?
+    let evs := script.toList.filterMap fun ch =>
+      if ch == 'r' then some Vegeta.Model.Pump.Ev.r else if ch == 's' then some .s
+      else if ch == 'c' then some .c else if ch == 'e' then some .e else none
+    let p := Vegeta.Model.Pump.runScript evs
+    let ret := match p.ret with | .running => "running" | .nil => "nil" | .error => "error"
+    let enc := String.intercalate "," (p.encoded.reverse.map toString)
+    pure s!"ok returned={ret} stopped={p.stopClosed} encoded={p.encoded.length} {enc}"
   | _ => none
 
 end Vegeta.Driver.C02
